@@ -226,9 +226,18 @@ func (d *driver) op() {
 	default:
 		// binary
 		b := d.pick()
+		if d.rng.Intn(5) == 0 {
+			b = a // the same tensor in both operand slots
+		}
 		nb := d.nodes[b-1]
 		args = []int{a, b}
-		switch k2 := d.rng.Intn(8); {
+		switch k2 := d.rng.Intn(9); {
+		case k2 == 8:
+			op = "patch"
+			if rank == 0 || !eq(na.dims, nb.dims) {
+				return
+			}
+			par.Index = [][2]int{{0, na.dims[0]}}
 		case k2 < 4:
 			op = []string{"add", "sub", "mul", "add"}[k2]
 			if !eq(na.dims, nb.dims) {
